@@ -510,10 +510,16 @@ class WsgiApplication(HttpBase):
         try:
             self.get_out_string(p_ctx)
 
+            if not self.chunked:
+                # the response is serialized lazily, so this is where a
+                # generator result that fails after its first item is found out
+                p_ctx.out_string = [b''.join(p_ctx.out_string)]
+
         except Fault as e:
             logger.exception(e)
             p_ctx.out_error = e
             p_ctx.out_document = None
+            p_ctx.out_string = None
             return self.handle_error(p_ctx, others, p_ctx.out_error,
                                                                  start_response)
 
@@ -521,6 +527,7 @@ class WsgiApplication(HttpBase):
             logger.exception(e)
             p_ctx.out_error = Fault('Server', get_fault_string_from_exception(e))
             p_ctx.out_document = None
+            p_ctx.out_string = None
             return self.handle_error(p_ctx, others, p_ctx.out_error,
                                                                  start_response)
 
